@@ -124,6 +124,25 @@ CATALOGUE = [
     ("mutator-value-delta-sign", "varLib/merger.py", "        setattr(self, name, getattr(self, name, 0) + delta)", "        setattr(self, name, getattr(self, name, 0) - delta)", "C08", "MutatorMergeValueRecord", "alarm"),
     ("mutator-anchor-always-x", "varLib/merger.py", '        attr = v + "Coordinate"', '        attr = "XCoordinate"', "C08", "MutatorMergeAnchor", "alarm"),
     ("closure-memo-never-invalidated", "subset/__init__.py", "    if count != len(s.glyphs):\n        count, covered = doneLookups[key] = (len(s.glyphs), set())", "    if count > len(s.glyphs):\n        count, covered = doneLookups[key] = (len(s.glyphs), set())", "C07", "LookupClosureMemo", "alarm"),
+    ("gvar-order-simple-first-only", "varLib/instancer/__init__.py", "                glyf[name].getCompositeMaxpValues(glyf).maxComponentDepth\n                if glyf[name].isComposite()\n                else 0", "                1\n                if glyf[name].isComposite()\n                else 0", "C08", "InstantiateGvarOrder", "alarm"),
+    ("debg-dump-skips-undocumented-lookups", "ttLib/tables/otTables.py", "                        xmlWriter.comment(tag)\n                        xmlWriter.newline()\n\n                    conv.xmlWrite(", "                        xmlWriter.comment(tag)\n                        xmlWriter.newline()\n                    else:\n                        continue\n\n                    conv.xmlWrite(", "C03", "LookupListDumpWithDebugInfo", "alarm"),
+    ("avar-values-normalised-by-keys", "varLib/__init__.py", "        vals = [models.normalizeValue(v, vals_triple) for v in vals]", "        vals = [models.normalizeValue(v, keys_triple) for v in vals]", "C10", "AddAvarWritesTheAxisMap", "alarm"),
+    ("avar-identity-test-any", "varLib/__init__.py", "        if all(k == v for k, v in zip(keys, vals)):", "        if any(k == v for k, v in zip(keys[1:-1], vals[1:-1])):", "C10", "AddAvarWritesTheAxisMap", "alarm"),
+    ("avar-identity-test-spelling", "varLib/__init__.py", "        if all(k == v for k, v in zip(keys, vals)):", "        if keys == vals:", "C10", "AddAvarWritesTheAxisMap", "green"),
+    ("t1-parse-leniv-truthy", "t1Lib/__init__.py", 'lenIV = self.font["Private"].get("lenIV", 4)', 'lenIV = self.font["Private"].get("lenIV") or 4', "C15", "T1ParseStripsLenIV", "alarm"),
+    ("t1-encode-prefix-from-constant", "t1Lib/__init__.py", "bytesjoin([char_IV[:1] * lenIV, char_bin.bytecode])", "bytesjoin([char_IV[:lenIV], char_bin.bytecode])", "C15", "T1EncodePrependsLenIV", "alarm"),
+    ("glyph-compile-packed-verbatim", "ttLib/tables/_g_l_y_f.py", "            if recalcBBoxes:\n                # must unpack glyph in order to recalculate bounding box\n                self.expand(glyfTable)\n            else:\n                return self.data", "            return self.data", "C04", "GlyphCompileHeaderBox", "alarm"),
+    ("glyph-compile-no-recalc", "ttLib/tables/_g_l_y_f.py", "        if recalcBBoxes:\n            self.recalcBounds(glyfTable, boundsDone=boundsDone)\n\n        data = sstruct.pack(glyphHeaderFormat, self)", "        data = sstruct.pack(glyphHeaderFormat, self)", "C04", "GlyphCompileHeaderBox", "alarm"),
+    ("merge-cff-width-old-nominal", "merge/tables.py", "                    c.program.insert(0, width - newNominalWidthX)", "                    c.program.insert(0, width - nominalWidthX)", "C18", "MergeCFFKeepsWidths", "alarm"),
+    ("scale-vorg-records-on-vmtx", "ttLib/scaleUpem.py", '@ScalerVisitor.register_attr(ttLib.getTableClass("VORG"), "VOriginRecords")', '@ScalerVisitor.register_attr(ttLib.getTableClass("VMTX"), "VOriginRecords")', "C17", "ScalerVisitsContainers", "alarm"),
+    ("scale-hhea-caret-offset-forgotten", "ttLib/scaleUpem.py", '                "xMaxExtent",\n                "caretOffset",\n            ),\n        ),\n        (\n            ttLib.getTableClass("vhea"),', '                "xMaxExtent",\n            ),\n        ),\n        (\n            ttLib.getTableClass("vhea"),', "C17", "ScalerVisitsDeclaredFields", "alarm"),
+    ("scale-kern-coverage-too", "ttLib/scaleUpem.py", "            kernTable[k] = visitor.scale(kernTable[k])", "            kernTable[k] = visitor.scale(kernTable[k])\n        table.coverage = visitor.scale(table.coverage)", "C17", "ScalerVisitsContainers", "alarm"),
+    ("gvar-iup-from-varied-outline", "ttLib/ttGlyphSet.py", "                delta = iup_delta(delta, origCoords, endPts)", "                delta = iup_delta(delta, coordinates, endPts)", "C05", "GlyfGlyphInstance", "alarm"),
+    ("gvar-zero-scalar-not-skipped", "ttLib/ttGlyphSet.py", "            if not scalar:\n                continue\n            delta = var.coordinates", "            delta = var.coordinates", "C05", "GlyfGlyphInstance", "green"),
+    ("phantom-lsb-from-right", "ttLib/ttGlyphSet.py", "    leftSideBearing = otRound(glyph.xMin - leftSideX)", "    leftSideBearing = otRound(glyph.xMin - rightSideX)", "C05", "SetCoordinatesPhantoms", "alarm"),
+    ("phantom-components-not-copied", "ttLib/ttGlyphSet.py", "        glyph.components = [copy(comp) for comp in glyph.components]  # Shallow copy", "        glyph.components = list(glyph.components)", "C05", "SetCoordinatesPhantoms", "alarm"),
+    ("glyphset-shift-inside-composites", "ttLib/ttGlyphSet.py", "            if depth:\n                offset = 0  # Offset should only apply at top-level\n\n            glyph.draw(pen, self.glyphSet.glyfTable, offset)", "            glyph.draw(pen, self.glyphSet.glyfTable, offset)", "C05", "GlyphSetMetricsAndShift", "alarm"),
+    ("glyphset-hvar-by-gid-always", "ttLib/ttGlyphSet.py", "                if glyphSet.hvarTable.AdvWidthMap is None\n                else glyphSet.hvarTable.AdvWidthMap.mapping[glyphName]", "                if True\n                else glyphSet.hvarTable.AdvWidthMap.mapping[glyphName]", "C05", "GlyphSetMetricsAndShift", "alarm"),
     ("closure-memo-subset-spelling", "subset/__init__.py", "    if cur_glyphs.issubset(covered):\n        return\n    covered.update(cur_glyphs)\n\n    for st in self.SubTable:", "    if cur_glyphs <= covered:\n        return\n    covered.update(cur_glyphs)\n\n    for st in self.SubTable:", "C07", "LookupClosureMemo", "green"),
 ]
 
